@@ -165,6 +165,7 @@ pub static DRIVERS: &[Driver] = &[
     Driver { name: "bytecode", run: crate::drivers4::bytecode_driver },
     Driver { name: "charset", run: crate::capsweep::charset_driver },
     Driver { name: "extarg", run: crate::extarg::extarg_driver },
+    Driver { name: "aatsynth", run: crate::aatsynth::aatsynth_driver },
 ];
 
 pub fn find(name: &str) -> Option<usize> {
